@@ -403,37 +403,42 @@ def dep_text(sc: list) -> str:
     return dp + ("uint8[%d] payload\n" % (sc[3] // 8) if sc[3] else "") + "@sealed\n"
 
 
-def sc_text(sc: list) -> str:
+def dep_ns(h: dict) -> str:
+    """The name of the lookup root namespace that holds the referenced definitions ("dep" unless the header says otherwise)."""
+    return h.get("depns") or "dep"
+
+
+def sc_text(sc: list, depns: str = "dep") -> str:
     k = sc[0]
     if k in ("bool", "byte", "utf8"):
         return k
     if k == "void":
         return "void%d" % sc[1]
     if k == "comp":
-        return "dep.%s.1.0" % dep_name(sc)
+        return "%s.%s.1.0" % (depns, dep_name(sc))
     return ("truncated " if sc[2] == "t" else "saturated ") + "%s%d" % (k, sc[1])
 
 
-def ty_text(t: list) -> str:
+def ty_text(t: list, depns: str = "dep") -> str:
     if t[0] == "s":
-        return sc_text(t[1])
+        return sc_text(t[1], depns)
     if is_x(t[2]):
         bound = "" if t[0] == "fa" else "<" if len(t[2]) > 4 else "<="
-        return "%s[%s%s]" % (sc_text(t[1]), bound, x_text(t[2]))
+        return "%s[%s%s]" % (sc_text(t[1], depns), bound, x_text(t[2]))
     if t[0] == "fa":
-        return "%s[%d]" % (sc_text(t[1]), t[2])
-    return "%s[<=%d]" % (sc_text(t[1]), t[2]) if t[2] % 2 else "%s[<%d]" % (sc_text(t[1]), t[2] + 1)
+        return "%s[%d]" % (sc_text(t[1], depns), t[2])
+    return "%s[<=%d]" % (sc_text(t[1], depns), t[2]) if t[2] % 2 else "%s[<%d]" % (sc_text(t[1], depns), t[2] + 1)
 
 
-def stmt_text(s: list) -> str:
+def stmt_text(s: list, depns: str = "dep") -> str:
     k = s[0]
     if k == "field":
-        return "%s %s" % (ty_text(s[1]), s[2])
+        return "%s %s" % (ty_text(s[1], depns), s[2])
     if k == "padding":
         return "void%d" % s[1]
     if k == "const":
         zero = "false" if s[1] == ["s", ["bool"]] else "0"
-        return "%s %s = %s" % (ty_text(s[1]), s[2], zero)
+        return "%s %s = %s" % (ty_text(s[1], depns), s[2], zero)
     if k == "marker":
         return "---"
     if k == "extent":
@@ -460,13 +465,36 @@ def all_deps(case: dict) -> typing.List[list]:
 
 def fs_safe(case: dict) -> bool:
     h = case["header"]
-    return all(c and "/" not in c and "." not in c and len(c.encode()) <= 200 and c not in ("dep",) for c in h["ns"] + [h["short"]])
+    return all(c and "/" not in c and "." not in c and len(c.encode()) <= 200 and c not in ("dep", dep_ns(h)) for c in h["ns"] + [h["short"]])
 
 
 # ------------------------------------------------------------------------------------------------- generator
 
+# Legal identifiers that BEGIN with / CONTAIN / are ALL BUT A SUFFIX of a word of the grammar (primitive type names, cast modes, boolean
+# literals, directive names): only the exact words and patterns are reserved.  They are used as attribute names, type short names, nested
+# and root namespace names of the definition (whose full name is written out as an absolute reference when it is read as a dependency),
+# and as the name of the lookup root namespace, so that every composite type reference of the text may begin like a keyword
+# (`boolean_.Dnm8.1.0 x`, `uint8_ext.Dnm0.1.0[<=3] y`).
+KEYWORD_LIKE_NAMES = ["boolean", "bool_", "bytes", "byte_", "utf8_", "utf8text", "uint8_", "uint8_t", "int16s", "integer", "float32x", "floating", "void1x", "voided",
+                      "truncated_", "saturated8", "true_", "truely", "falsey", "false0", "sealed", "union", "extent", "deprecated_", "assert", "print", "is_true", "a_uint8"]
+KEYWORD_LIKE_ROOTS = ["boolean", "bool_", "bytes", "utf8_", "uint8_t", "int16s", "float32x", "void1s", "truncated_", "saturatedx", "true_", "falsey", "sealed", "print"]
+KEYWORD_LIKE_SUBS = ["bool1", "byte_", "utf8x", "uint8s", "int8_", "float64_", "void8x", "truncated1", "saturated_", "truely", "false_", "union", "extent"]
+KEYWORD_LIKE_SHORTS = ["Boolean", "bool_", "byte_t", "utf8string", "uint8x4", "int16s", "float32x3", "void1s", "Truncated_", "saturatedX", "true_", "Falsey", "sealed", "Print_"]
+KEYWORD_LIKE_DEP_ROOTS = ["boolean_", "bytecraft", "byte_", "utf8tools", "uint8_ext", "int16x", "float32x3", "void1_", "truncated_dep", "saturatedly", "true_dep", "falsehood"]
+GRAMMAR_WORDS = ["truncated", "saturated", "deprecated", "bool", "byte", "utf8", "uint", "int", "float", "void", "true", "false", "union", "sealed", "extent", "assert", "print"]
+
+
+def keyword_like(name: str) -> typing.Optional[str]:
+    n = name.lower()
+    for how, test in (("is", lambda w: n == w), ("begins", lambda w: n.startswith(w)), ("contains", lambda w: w in n)):
+        for w in GRAMMAR_WORDS:
+            if test(w):
+                return how + ":" + w
+    return None
+
+
 GOOD_NAMES = ["a", "b", "value", "x1", "my_field", "f_", "_g", "abc123", "q", "data", "com10", "lpt", "q1", "uq_1", "voidx", "int_", "floaty",
-              "Bool1", "con1", "_", "TRUEE", "u", "i8", "q1_", "_1", "a_"]
+              "Bool1", "con1", "_", "TRUEE", "u", "i8", "q1_", "_1", "a_"] + KEYWORD_LIKE_NAMES
 BAD_NAMES = ["bool", "Bool", "BOOL", "true", "False", "truncated", "Saturated", "optional", "aligned", "const", "struct", "super", "template", "enum",
              "self", "SELF", "and", "or", "not", "auto", "type", "Type", "con", "prn", "aux", "nul", "NUL", "void", "void3", "Void33", "uint", "uint8", "uInt7",
              "int", "INT16", "int999", "q1_2", "uq16_8", "Q1_2", "UQ0_0", "float", "float16", "Float1", "com1", "COM9", "lpt0", "LPT7", "_a_", "__", "_A1_", "___"]
@@ -576,8 +604,9 @@ def g_schema(rng, deprecated: bool, with_deprecated_directive: bool) -> list:
 
 
 def g_valid(rng) -> dict:
-    root = rng.choice(["vendor", "vendor", "uavcan", "cyphal", "Zubax", "ns_1", "_ns", "regulated"])
-    ns = [root] + [rng.choice(["sub", "node", "a1", "B", "x_y"]) for _ in range(rng.choice([0, 0, 1, 2]))]
+    kw = rng.random() < 0.3  # keyword-like identifiers at every position of the definition's identity and of its references
+    root = rng.choice(KEYWORD_LIKE_ROOTS) if kw and rng.random() < 0.6 else rng.choice(["vendor", "vendor", "uavcan", "cyphal", "Zubax", "ns_1", "_ns", "regulated"])
+    ns = [root] + [rng.choice(KEYWORD_LIKE_SUBS) if kw and rng.random() < 0.6 else rng.choice(["sub", "node", "a1", "B", "x_y"]) for _ in range(rng.choice([0, 0, 1, 2]))]
     service = rng.random() < 0.3
     deprecated = rng.random() < 0.25
     stmts = g_schema(rng, deprecated, deprecated)
@@ -592,8 +621,11 @@ def g_valid(rng) -> dict:
         if allow and rng.random() < 0.6:
             port = rng.choice([0, 1, 255, 256, 383, 384, 511] if service else [0, 1, 6143, 6144, 7167, 7168, 8191])
     major, minor = rng.choice([(1, 0), (0, 1), (255, 255), (255, 0), (0, 255), (rng.randint(0, 255), rng.randint(1, 255))])
-    return {"header": {"ns": ns, "short": rng.choice(["Alpha", "Msg", "T1", "a", "Heartbeat", "Q1", "Com10"]), "major": major, "minor": minor, "port": port, "allow": allow},
-            "stmts": stmts}
+    short = rng.choice(KEYWORD_LIKE_SHORTS) if kw and rng.random() < 0.6 else rng.choice(["Alpha", "Msg", "T1", "a", "Heartbeat", "Q1", "Com10"])
+    out = {"header": {"ns": ns, "short": short, "major": major, "minor": minor, "port": port, "allow": allow}, "stmts": stmts}
+    if kw and rng.random() < 0.7:
+        out["header"]["depns"] = rng.choice(KEYWORD_LIKE_DEP_ROOTS)
+    return out
 
 
 def _attr_idx(case, kinds=("field", "const", "padding")):
@@ -1205,16 +1237,17 @@ class RulesSuite(common.Suite):
             h = case["header"]
             p = tmp / file_relpath(h)
             p.parent.mkdir(parents=True, exist_ok=True)
-            p.write_text("".join(stmt_text(s) + "\n" for s in case["stmts"]), encoding="utf8")
-            (tmp / "dep").mkdir(exist_ok=True)
+            depns = dep_ns(h)
+            p.write_text("".join(stmt_text(s, depns) + "\n" for s in case["stmts"]), encoding="utf8")
+            (tmp / depns).mkdir(exist_ok=True)
             for sc in all_deps(case):
-                (tmp / "dep" / (dep_name(sc) + ".1.0.dsdl")).write_text(dep_text(sc))
+                (tmp / depns / (dep_name(sc) + ".1.0.dsdl")).write_text(dep_text(sc))
             def read_once() -> dict:
                 try:
                     if case.get("entry") == "files":
-                        r, _transitive = pydsdl.read_files([p], [tmp / h["ns"][0]], [tmp / "dep"], allow_unregulated_fixed_port_id=bool(h["allow"]))
+                        r, _transitive = pydsdl.read_files([p], [tmp / h["ns"][0]], [tmp / depns], allow_unregulated_fixed_port_id=bool(h["allow"]))
                     else:
-                        r = pydsdl.read_namespace(tmp / h["ns"][0], [tmp / "dep"], allow_unregulated_fixed_port_id=bool(h["allow"]))
+                        r = pydsdl.read_namespace(tmp / h["ns"][0], [tmp / depns], allow_unregulated_fixed_port_id=bool(h["allow"]))
                     full = ".".join(h["ns"] + [h["short"]])
                     if not any(t.full_name == full and (t.version.major, t.version.minor) == (h["major"], h["minor"]) and t.fixed_port_id == h["port"] for t in r):
                         return {"res": "foreign:not-in-result", "soft_msg": str([str(t) for t in r])[:200]}
@@ -1246,7 +1279,7 @@ class RulesSuite(common.Suite):
             shutil.rmtree(tmp, ignore_errors=True)
 
     def model_case(self, case):
-        return {"id": case.get("id"), "header": case["header"], "stmts": [model_stmt(s) for s in case["stmts"]]}
+        return {"id": case.get("id"), "header": {k: v for k, v in case["header"].items() if k != "depns"}, "stmts": [model_stmt(s) for s in case["stmts"]]}
 
     def compare(self, case, impl, model, prop):
         if "err" in model:
@@ -1363,6 +1396,13 @@ class RulesSuite(common.Suite):
                 yield "odd-character-name:%s:%s" % (pos, f.split(":")[0] + ":" + f.split(":")[2])
                 yield "odd-character:%s" % f.split(":")[1]
                 yield "odd-character-route:%s:%s" % (route, pos)
+        for pos, nm in [("root", hh["ns"][0])] + [("nested", x) for x in hh["ns"][1:]] + [("type", hh["short"])] + [("attribute", st[2]) for st in case["stmts"] if st[0] in ("field", "const")]:
+            if nm.isascii() and name_ok(nm) and keyword_like(nm):
+                yield "keyword-like-name:%s:%s" % (pos, keyword_like(nm).split(":")[0])
+                yield "keyword-like-word:" + keyword_like(nm).split(":")[1]
+        if keyword_like(dep_ns(hh)) and all_deps(case):
+            yield "keyword-like-name:referenced-root-namespace:%s" % keyword_like(dep_ns(hh)).split(":")[0]
+            yield "keyword-like-word:" + keyword_like(dep_ns(hh)).split(":")[1]
         for st in case["stmts"]:
             if st[0] == "field" and st[1][0] in ("fa", "va"):
                 cap = cap_of(st[1])
